@@ -14,7 +14,7 @@ SOURCE_CONSTANTS = {
     'Scales.Heap.chOpen': ('from scales.constants import ChannelState', 'ChannelState.Open'),
 }
 ASSUMPTIONS = ['channel states change only between balancer calls (gevent is cooperative)',
-               'fewer than 2^31-1 requests outstanding per member']
+               'fewer than 2^31-1 dispatches in the history (theorem hypothesis getCount ops < 2147483647, part of the reported wf)']
 
 
 def gen_script(rng, tier):
